@@ -602,6 +602,7 @@ func (f *Flow) pubTask(s *Sim, name string, n int) {
 		f.byTopic[topic] = pb
 		pb.Invoke = w.Steps
 		pb.InvTime = s.Now()
+		deadAtInvoke := s.dead
 		w.Ev("api", pb.Idx, "%s publish q%d %s", name, pb.QoS, topic)
 		var ex <-chan error
 		var err error
@@ -616,6 +617,12 @@ func (f *Flow) pubTask(s *Sim, name string, n int) {
 			ex, err = f.C.PublishExactlyOnce(pb.Payload, topic)
 		default:
 			ex, err = f.C.PublishExactlyOnceRetained(pb.Payload, topic)
+		}
+		if s.dead && !deadAtInvoke {
+			// the call came back only because the incarnation was
+			// unwound: as far as the run goes it never returned
+			pb.Zombie = true
+			return
 		}
 		pb.Ex, pb.Err = ex, err
 		pb.Ret = w.Steps
